@@ -41,9 +41,10 @@ def cfg(p):
   MaxDepth = {p['maxdepth']}
   MaxSubs = {p['maxsubs']}
   MaxReloads = {p.get('maxreloads', 1)}
+  Queries = {"TRUE" if p.get('queries') else "FALSE"}
 INIT Init
 NEXT Next
-VIEW View
+VIEW {"ViewH" if p.get("histview") else "View"}
 CONSTRAINT Bound
 INVARIANT SubCap
 INVARIANT Growth
@@ -159,6 +160,13 @@ class Ctx:
             return f
         if o[0] == "rt":
             return self.reload(f, hf, o[1])
+        if o[0] == "chk":      # a look-up as an operation of the history
+            key = self.rk(o[1])
+            f.check_alt(self.hashes_of(f, key)) if self.alt(o) else f.check(key)
+            return f
+        if o[0] == "exp":      # an export without reload: the same object lives on
+            bytes(f)
+            return f
 
     def edge(self, e):
         t = self.t
@@ -286,6 +294,14 @@ def profiles(tier, seed, light=False):
             P.append(dict(base, rotating=False, M=M, K=K, est=est, fpr=fpr, H=H, ntables=16, maxdepth=6, channels=["bytes", "path", "fileobj"], maxsubs=5))
             for q in (1, 2, 3):
                 P.append(dict(base, rotating=True, qmax=q, M=M, K=K, est=est, fpr=fpr, H=H, ntables=10, maxdepth=6, channels=["bytes", "path"], maxsubs=5))
+    # every HISTORY (no state merging) of the smallest instances, look-ups and exports (without reload) being operations of the history
+    # (MaxDepth counts the operation under test: depth 5 = histories of 4 operations + 1)
+    hv = dict(base, keys=["a", "b"], ntables=2, histview=True, queries=True, channels=["bytes"], maxsubs=4, M=3, K=2, est=1, fpr=0.35, H=5, only_table=1)
+    P.append(dict(hv, rotating=False, maxdepth=5))
+    P.append(dict(hv, rotating=True, qmax=1, maxdepth=4 if tier == "quick" else 5))
+    P.append(dict(hv, rotating=True, qmax=2, maxdepth=5))
+    if tier != "quick":
+        P.append(dict(hv, rotating=False, M=6, K=2, est=2, fpr=0.3, H=11, maxdepth=5, channels=[]))
     for i, st in enumerate(["fnv", "sha256", "deco_int"] if tier == "quick" else ["fnv", "md5", "sha256", "deco_int", "deco_bytes", "handwritten"]):
         P.append(dict(base, rotating=bool(i % 2), qmax=2, M=6, K=2, est=2, fpr=0.3, H=0, ntables=1, maxdepth=5 if tier == "quick" else 6, channels=["bytes"], strategy=st))
     if light and tier == "quick":
@@ -298,6 +314,8 @@ def profiles(tier, seed, light=False):
             p["tables"] = [strategy_table(p["strategy"], p["keys"], p["K"], p["M"])]
             continue
         p["tables"] = gen_tables(p["keys"], p["M"], p["K"], p["H"], p["ntables"], seed * 1000 + 900 + i)
+        if p.get("only_table") is not None:
+            p["tables"] = p["tables"][p["only_table"]:p["only_table"] + 1]      # the first non-degenerate table (keys on different cells)
     return P
 
 
@@ -322,7 +340,7 @@ def run(focus, tier, seed):
     # deeper histories than the exhaustive bound reaches: TLC simulation schedules over the same spec
     nsim = 0
     for p in profiles(tier, seed, focus in ("C05", "C14", "C19")):
-        if (focus in FOCUS_FILTER and not FOCUS_FILTER[focus](p)) or (tier == "quick" and focus in ("C05", "C14", "C19")):
+        if (focus in FOCUS_FILTER and not FOCUS_FILTER[focus](p)) or (tier == "quick" and focus in ("C05", "C14", "C19")) or p.get("histview"):
             continue
         ps = dict(p, maxdepth=16, maxsubs=6, maxreloads=2)
         const = {k: v for k, v in ps.items() if k != "tables"}
